@@ -24,6 +24,10 @@ struct Problem
   int precond = 0;     // 0 keep whatever is configured, 1 setPreconditionner(A), 2 setPreconditionner(A, b)
   bool covariance = false;
   bool poison = true;  // overwrite rows beyond m with large finite values before solving
+  int fill = 0;        // how the rows of the current problem get into the solver:
+                       // 0 written through fresh getJ()/getY()/getW() calls, 1 not written at all: the problem is the
+                       // prefix of what the buffers already hold (only when they hold enough rows), 2 written through
+                       // references to J, Y, W that were obtained once, right after construction
 };
 
 struct Plan
@@ -88,16 +92,14 @@ Outcome runHistory(const Plan & pl, Ctx & c)
   // the model of the configuration that survives between problems: the preconditioner
   Mat curA = Mat::Identity(p, p); Vec curB = Vec::Zero(p);
   int rows = pl.ctorRows < 0 ? 0 : pl.ctorRows;   // rows the buffers currently have
-  int prevM = -1; size_t no = 0;
+  int prevM = -1, prevRows = 0; size_t no = 0;
+  // references a caller may legitimately keep: the member matrices live as long as the solver
+  Mat * Jref = &ls->getJ(); Vec * Yref = &ls->getY(); Vec * Wref = &ls->getW();
 
   for (const Problem & pb : pl.problems) {
     ++no; ++c.steps;
     const int m = std::max(pb.m, p);
     Data d = makeData(pb, p);
-    // data in the solver's scalar type
-    Mat J = d.J.template cast<T>(); Vec Y = d.Y.template cast<T>(); Vec W = d.W.template cast<T>();
-    Mat A = d.A.template cast<T>(); Vec b = d.b.template cast<T>();
-
     bool grew = ls->setDataSize((size_t)m);
     if (grew != (m > rows)) {
       return Outcome::fail("setDataSize-result", fmt("problem #%zu: setDataSize(%d) returned %d with buffers of %d rows", no, m, grew, rows));
@@ -105,22 +107,54 @@ Outcome runHistory(const Plan & pl, Ctx & c)
     if (m > rows) {rows = m; SIM_PROBE("grow_reallocates_buffers");} else if (m < rows) {SIM_PROBE("shrink_leaves_stale_rows");} else {SIM_PROBE("same_size_as_buffers");}
     if (prevM >= 0 && m < prevM) {SIM_PROBE("smaller_problem_after_larger");}
     if (prevM >= 0 && m > prevM && m <= rows && grew == false) {SIM_PROBE("grow_within_existing_buffers");}
-    prevM = m;
-    if ((int)ls->getJ().rows() < m || (int)ls->getY().rows() < m || (int)ls->getW().rows() < m || ls->getJ().cols() != p) {
-      return Outcome::fail("buffer-shape", fmt("problem #%zu: after setDataSize(%d) J is %dx%d, Y has %d rows, W has %d rows", no, m,
-               (int)ls->getJ().rows(), (int)ls->getJ().cols(), (int)ls->getY().rows(), (int)ls->getW().rows()));
-    }
-    // stale rows beyond the current problem hold leftovers: make any use of them loud
-    if (pb.poison && ls->getJ().rows() > m) {
-      SIM_COUNT("fault.poisoned_stale_rows.fired");
-      T big = (T)(1e6 * pb.scale);
-      for (int i = m; i < ls->getJ().rows(); ++i) {
-        for (int j = 0; j < p; ++j) {ls->getJ()(i, j) = ((i + j) % 2 ? big : -big);}
-        ls->getY()(i) = big * (T)3; ls->getW()(i) = (T)1000;
+    {
+      const LS & k = *ls;
+      if ((int)k.getJ().rows() < m || (int)k.getY().rows() < m || (int)k.getW().rows() < m || k.getJ().cols() != p) {
+        return Outcome::fail("buffer-shape", fmt("problem #%zu: after setDataSize(%d) J is %dx%d, Y has %d rows, W has %d rows", no, m,
+                 (int)k.getJ().rows(), (int)k.getJ().cols(), (int)k.getY().rows(), (int)k.getW().rows()));
       }
     }
-    ls->getJ().topRows(m) = J; ls->getY().head(m) = Y;
-    if (pb.path == 2) {ls->getW().head(m) = W;}
+    // how the caller reaches the buffers: fresh non-const getters, or references it kept from the start
+    int fill = pb.fill;
+    if (fill == 1 && (prevM < 0 || grew || m > prevRows)) {fill = 0;}      // nothing to keep (fresh or reallocated buffers): write it
+    Mat & Jw = fill == 2 ? *Jref : (fill == 0 ? ls->getJ() : *Jref);
+    Vec & Yw = fill == 2 ? *Yref : (fill == 0 ? ls->getY() : *Yref);
+    Vec & Ww = fill == 2 ? *Wref : (fill == 0 ? ls->getW() : *Wref);
+    if (fill == 1) {SIM_PROBE("problem_is_prefix_of_previous_buffers_no_write");}
+    if (fill == 2) {SIM_PROBE("problem_written_through_references_kept_from_start");}
+    // stale rows beyond the current problem hold leftovers: make any use of them loud
+    if (pb.poison && Jw.rows() > m) {
+      SIM_COUNT("fault.poisoned_stale_rows.fired");
+      T big = (T)(1e6 * pb.scale);
+      for (int i = m; i < Jw.rows(); ++i) {
+        for (int j = 0; j < p; ++j) {Jw(i, j) = ((i + j) % 2 ? big : -big);}
+        Yw(i) = big * (T)3; Ww(i) = (T)1000;
+      }
+    }
+    if (fill != 1) {
+      Jw.topRows(m) = d.J.template cast<T>(); Yw.head(m) = d.Y.template cast<T>();
+      if (pb.path == 2) {Ww.head(m) = d.W.template cast<T>();}
+    }
+    // the current problem is whatever the first m rows hold now (read through the const interface)
+    const LS & cls = *ls;
+    Mat J = cls.getJ().topRows(m); Vec Y = cls.getY().head(m); Vec W = cls.getW().head(m);
+    Mat A = d.A.template cast<T>(); Vec b = d.b.template cast<T>();
+    if (!J.allFinite() || !Y.allFinite() || (pb.path == 2 && (!W.allFinite() || W.minCoeff() <= 0))) {SIM_COUNT("op.skipped_non_finite_leftover_prefix"); prevM = m; prevRows = (int)cls.getJ().rows(); continue;}
+    // singular values of the problem actually solved (the prefix of an earlier matrix has its own conditioning)
+    double sigmaMax, sigmaMin;
+    {
+      // (for the weighted path the problem solved is diag(W) J)
+      MatD Jeff = J.template cast<double>(); if (pb.path == 2) {Jeff = W.template cast<double>().asDiagonal() * Jeff;}
+      Eigen::JacobiSVD<MatD> svd(Jeff);
+      sigmaMax = svd.singularValues()(0); sigmaMin = svd.singularValues()(p - 1);
+    }
+    const double condNow = sigmaMin > 0 ? sigmaMax / sigmaMin : INFINITY;
+    // the statement bounds the condition number; the generator bounds the scale (1e-6..1e6, float 1e-3..1e3).
+    // Leftover prefixes that were re-weighted several times can leave both ranges: solved, but not judged.
+    const double sLo = pl.isFloat ? 1e-4 : 1e-7, sHi = pl.isFloat ? 1e4 : 1e7;
+    const bool inDomain = condNow <= (pl.isFloat ? 1.05e3 : 1.05e6) && Y.norm() > 0 && sigmaMax >= sLo && sigmaMax <= sHi &&
+      (double)Y.norm() <= 1e3 * sHi;
+    if (!inDomain) {SIM_PROBE("leftover_prefix_outside_condition_domain_numeric_clauses_skipped");}
     if (pb.precond == 1) {ls->setPreconditionner(A); curA = A; curB = Vec::Zero(p); SIM_COUNT("op.setPreconditionner_A");}
     if (pb.precond == 2) {ls->setPreconditionner(A, b); curA = A; curB = b; SIM_COUNT("op.setPreconditionner_A_b");}
     if (pb.precond == 0 && no > 1 && !(curA.isIdentity() && curB.isZero())) {SIM_PROBE("preconditioner_carried_over_from_earlier_problem");}
@@ -135,11 +169,10 @@ Outcome runHistory(const Plan & pl, Ctx & c)
     if (c.record) {
       c.note(fmt("#%zu m=%d cond=%.3g scale=%.3g path=%s precond=%d -> |x|=%.9g", no, m, pb.cond, pb.scale, pathName[pb.path], pb.precond, (double)x.norm()));
     }
-    if (!x.allFinite()) {return Outcome::fail("non-finite", fmt("problem #%zu (%s, m=%d, p=%d): the estimate is not finite", no, pathName[pb.path], m, p));}
+    if (inDomain && !x.allFinite()) {return Outcome::fail("non-finite", fmt("problem #%zu (%s, m=%d, p=%d): the estimate is not finite", no, pathName[pb.path], m, p));}
 
     // ---- history clause: same answer as a fresh solver that sees only the current problem
-    const double wRatio = pb.path == 2 ? 16.0 : 1.0;
-    const double kappa = pb.cond * wRatio;
+    const double kappa = inDomain ? condNow : 1.0;
     const double roundoff = 100.0 * Eps<T>::v * kappa * kappa;      // c * eps * cond^2 (DESIGN.md, C07)
     auto fresh = [&](int path) -> std::pair<Vec, Mat> {
         LS t((size_t)p); t.setDataSize((size_t)m);
@@ -150,11 +183,14 @@ Outcome runHistory(const Plan & pl, Ctx & c)
         return {xt, cov};
       };
     auto twin = fresh(pb.path);
+    prevM = m; prevRows = (int)cls.getJ().rows();
+    if (!inDomain) {continue;}
     {
       double diff = (double)(x - twin.first).norm(), ref = std::max((double)x.norm(), (double)twin.first.norm());
+      if (getenv("C07_STATS") && diff > 0.01 * roundoff * ref) {fprintf(stderr, "STAT twin ratio=%.3g cond=%.3g m=%d p=%d float=%d fill=%d\n", diff / (Eps<T>::v * kappa * kappa * ref), condNow, m, p, (int)pl.isFloat, fill);}
       if (!(diff <= roundoff * ref + 1e-300)) {
         return Outcome::fail("differs-from-fresh-solver", fmt("problem #%zu (%s, m=%d after %d-row buffers, p=%d, cond %.3g): reused solver and "
-                 "fresh solver differ by %.3g relative (rounding allowance %.3g)", no, pathName[pb.path], m, rows, p, pb.cond,
+                 "fresh solver differ by %.3g relative (rounding allowance %.3g)", no, pathName[pb.path], m, rows, p, condNow,
                  diff / (ref + 1e-300), roundoff));
       }
     }
@@ -175,26 +211,32 @@ Outcome runHistory(const Plan & pl, Ctx & c)
       MatL Al = curA.template cast<long double>();
       VecL x0 = Al.fullPivLu().solve(x.template cast<long double>() - curB.template cast<long double>());
       VecL res = Jl.transpose() * (Jl * x0 - Yl);
-      long double wMax = pb.path == 2 ? 4.0L : 1.0L;
-      long double sMax = d.sigmaMax * wMax;
+      long double sMax = sigmaMax;
       // + the rounding of the affine map itself: x = A x0 + b is rounded at the magnitude of |x| and |b|, and
       // recovering x0 = A^-1 (x - b) carries that absolute error (|A^-1| <= 2 by construction)
       long double affine = 100.0L * Eps<T>::v * 2.0L * ((long double)x.norm() + (long double)curB.norm()) * sMax * sMax;
       long double bound = (long double)roundoff * (sMax * sMax * x0.norm() + sMax * Yl.norm()) + affine + 1e-300L;
+      if (getenv("C07_STATS") && res.norm() > 0.1 * bound) {fprintf(stderr, "STAT res ratio=%.3Lg cond=%.3g m=%d p=%d float=%d noise=%g path=%d\n", 100 * res.norm() / bound, condNow, m, p, (int)pl.isFloat, pb.noise, pb.path);}
       if (!(res.norm() <= bound)) {
         return Outcome::fail(pb.path == 2 ? "weighted-normal-equations-residual" : "normal-equations-residual",
                  fmt("problem #%zu (%s, m=%d, p=%d, cond %.3g, scale %.3g%s): |J^T(J x0 - Y)| = %.3Lg exceeds the rounding bound %.3Lg "
-                 "(x0 recovered from x = A x0 + b)", no, pathName[pb.path], m, p, pb.cond, pb.scale, pl.isFloat ? ", float" : "", res.norm(), bound));
+                 "(x0 recovered from x = A x0 + b)", no, pathName[pb.path], m, p, condNow, pb.scale, pl.isFloat ? ", float" : "", res.norm(), bound));
       }
     }
     // ---- Cholesky and SVD paths agree (on a fresh solver, so that no history is involved)
     if (pb.path <= 1) {
       auto other = fresh(1 - pb.path);
       double diff = (double)(x - other.first).norm(), ref = std::max((double)x.norm(), (double)other.first.norm());
-      if (!(diff <= 2 * roundoff * ref + 1e-300)) {
+      if (getenv("C07_STATS") && diff > 0.2 * roundoff * ref) {fprintf(stderr, "STAT csd ratio=%.3g cond=%.3g m=%d p=%d float=%d noise=%g\n", diff / (Eps<T>::v * kappa * kappa * ref), condNow, m, p, (int)pl.isFloat, pb.noise);}
+      // allowance for this clause: 2 * 1000 * eps * cond^2. Measured on 5e6 problems of the repaired tree: the two
+      // paths differ by up to 444 * eps * cond^2 (only for cond > 5e5, double), while the residual clause never
+      // exceeds 10 % and the twin clause 1 % of their allowances; an explicit inverse of J^T J has a worst-case
+      // forward error of eps * cond^4, so 100 * eps * cond^2 was too tight for *this* comparison (two alarms in
+      // 2.4e6 problems, both 1.7x above it) - see DESIGN.md 8.2
+      if (!(diff <= 20 * roundoff * ref + 1e-300)) {
         return Outcome::fail("cholesky-svd-disagree", fmt("problem #%zu (m=%d, p=%d, cond %.3g, scale %.3g%s): %s and the other path differ by %.3g "
-                 "relative (rounding allowance %.3g)", no, m, p, pb.cond, pb.scale, pl.isFloat ? ", float" : "", pathName[pb.path], diff / (ref + 1e-300),
-                 2 * roundoff));
+                 "relative (rounding allowance %.3g)", no, m, p, condNow, pb.scale, pl.isFloat ? ", float" : "", pathName[pb.path], diff / (ref + 1e-300),
+                 20 * roundoff));
       }
     }
     if (pb.scale < 1e-3) {SIM_PROBE("small_scale_problem");}
@@ -244,6 +286,7 @@ struct PropC07
     double maxCond = p.isFloat ? 1e3 : 1e6;
     int condStyle = (int)r.below(3);   // 0 well conditioned, 1 full range, 2 worst
     int scaleStyle = (int)r.below(3);  // 0 unit, 1 full range, 2 extreme
+    int fillStyle = (int)r.below(2);   // 0 always through fresh getters, 1 mixed (kept prefix / kept references)
     SIM_COUNT("fault.poisoned_stale_rows.configured");
     for (int k = 0; k < n; ++k) {
       Problem pb; pb.seed = r.next();
@@ -261,6 +304,7 @@ struct PropC07
       pb.precond = r.chance(0.6) ? 0 : (int)r.range(1, 2);
       pb.covariance = r.chance(0.3);
       pb.poison = true;
+      pb.fill = fillStyle == 0 ? 0 : (int)r.below(3);
       p.problems.push_back(pb);
     }
     return p;
@@ -282,7 +326,7 @@ struct PropC07
       Json o = Json::object();
       o.set("data_size", pb.m).set("cond", pb.cond).set("scale", pb.scale).set("noise", pb.noise).set("solve", pathName[pb.path]).set("path", pb.path)
       .set("set_preconditioner", pb.precond == 0 ? "no" : (pb.precond == 1 ? "A" : "A,b")).set("precond", pb.precond).set("covariance", pb.covariance)
-      .set("poison_stale_rows", pb.poison).set("data_seed_hi", (long long)(pb.seed >> 32)).set("data_seed_lo", (long long)(pb.seed & 0xffffffffULL));
+      .set("poison_stale_rows", pb.poison).set("fill", pb.fill == 0 ? "fresh getJ()/getY()/getW()" : (pb.fill == 1 ? "none: prefix of what the buffers hold" : "references kept from construction")).set("fill_mode", pb.fill).set("data_seed_hi", (long long)(pb.seed >> 32)).set("data_seed_lo", (long long)(pb.seed & 0xffffffffULL));
       a.push(o);
     }
     j.set("problems", a);
@@ -294,7 +338,7 @@ struct PropC07
     Plan p; p.isFloat = j["is_float"].b(); p.p = (int)j["estimate_size"].i(); p.ctorRows = (int)j["constructed_with_rows"].i();
     for (auto & o : j["problems"].a()) {
       Problem pb; pb.m = (int)o["data_size"].i(); pb.cond = o["cond"].d(); pb.scale = o["scale"].d(); pb.noise = o["noise"].d(); pb.path = (int)o["path"].i();
-      pb.precond = (int)o["precond"].i(); pb.covariance = o["covariance"].b(); pb.poison = o["poison_stale_rows"].b();
+      pb.precond = (int)o["precond"].i(); pb.covariance = o["covariance"].b(); pb.poison = o["poison_stale_rows"].b(); pb.fill = o.has("fill_mode") ? (int)o["fill_mode"].i() : 0;
       pb.seed = ((uint64_t)o["data_seed_hi"].i() << 32) | (uint64_t)o["data_seed_lo"].i();
       p.problems.push_back(pb);
     }
@@ -316,6 +360,7 @@ struct PropC07
       if (pb.covariance) {Plan q = p; q.problems[k].covariance = false; out.push_back(q);}
       if (pb.precond != 0) {Plan q = p; q.problems[k].precond = pb.precond - 1; out.push_back(q);}
       if (pb.path != 1) {Plan q = p; q.problems[k].path = 1; out.push_back(q);}
+      if (pb.fill != 0) {Plan q = p; q.problems[k].fill = 0; out.push_back(q);}
     }
     return out;
   }
@@ -326,7 +371,7 @@ struct PropC07
     int rows = std::max(0, p.ctorRows);
     for (auto & pb : p.problems) {
       int m = std::max(pb.m, p.p); int cls = m > rows ? 0 : (m < rows ? 1 : 2); rows = std::max(rows, m);
-      h = mix64(h, (uint64_t)cls * 64 + (uint64_t)pb.path * 16 + (uint64_t)pb.precond * 4 + pb.covariance + (uint64_t)(pb.m / 8) * 1024);
+      h = mix64(h, (uint64_t)cls * 64 + (uint64_t)pb.path * 16 + (uint64_t)pb.precond * 4 + pb.covariance + (uint64_t)(pb.m / 8) * 4096 + (uint64_t)pb.fill * 1024);
     }
     return h;
   }
@@ -341,14 +386,15 @@ struct PropC07
   {
     std::string s = o.cls + "|" + (p.isFloat ? "float" : "double") + "|";
     int rows = std::max(0, p.ctorRows);
-    for (auto & pb : p.problems) {int m = std::max(pb.m, p.p); s += m > rows ? "G" : (m < rows ? "S" : "E"); s += "scw"[pb.path]; rows = std::max(rows, m);}
+    for (auto & pb : p.problems) {int m = std::max(pb.m, p.p); s += m > rows ? "G" : (m < rows ? "S" : "E"); s += "scw"[pb.path]; if (pb.fill) {s += pb.fill == 1 ? "k" : "r";} rows = std::max(rows, m);}
     return s;
   }
   std::vector<uint64_t> sampleIndexes() const {return {0, 2, 3, 4};}
   std::vector<std::string> probeNames() const
   {
     return {"grow_reallocates_buffers", "shrink_leaves_stale_rows", "same_size_as_buffers", "smaller_problem_after_larger", "grow_within_existing_buffers",
-      "preconditioner_carried_over_from_earlier_problem", "small_scale_problem", "large_scale_problem", "ill_conditioned_problem", "square_problem"};
+      "preconditioner_carried_over_from_earlier_problem", "problem_is_prefix_of_previous_buffers_no_write",
+      "problem_written_through_references_kept_from_start", "small_scale_problem", "large_scale_problem", "ill_conditioned_problem", "square_problem"};
   }
   Json describe() const
   {
@@ -362,7 +408,7 @@ struct PropC07
       "non-trivial = at least one problem is solved in buffers larger than itself.");
     Json or_ = Json::array();
     or_.push("history clause (decided): estimate and covariance equal those of a fresh solver given only the current problem and the configured preconditioner, within 100*eps*cond^2 relative (summation order may differ with buffer alignment)");
-    or_.push("input clauses (sampled per step): |J^T(J x0 - Y)| <= 100*eps*cond^2*(smax^2|x0| + smax|Y|) with x0 = A^-1(x - b), evaluated in long double; weighted normal equations for the weighted path; Cholesky and SVD agree within twice the allowance");
+    or_.push("input clauses (sampled per step): |J^T(J x0 - Y)| <= 100*eps*cond^2*(smax^2|x0| + smax|Y|) with x0 = A^-1(x - b), evaluated in long double; weighted normal equations for the weighted path; Cholesky and SVD agree within 2000*eps*cond^2 (measured worst case 444*eps*cond^2)");
     d.set("oracles", or_);
     Json comp = Json::object();
     comp.set("real_code", "LeastSquares.cpp <float> and <double> (g++ -O3, asserts on)");
@@ -372,7 +418,7 @@ struct PropC07
     d.set("components", comp);
     d.set("exhaustive", false);
     Json as = Json::array();
-    as.push("each problem is filled through getJ()/getY()/getW() and solved exactly once (weightedEstimate scales the buffers in place)");
+    as.push("each problem is solved exactly once (weightedEstimate scales the buffers in place); its rows get into the solver in one of three ways: written through fresh getJ()/getY()/getW() calls, written through references to the member matrices kept since construction, or not written at all (the problem is then the prefix of what the buffers already hold). The current problem is always read back through the const getters, and its condition number is computed from those rows; problems whose leftover prefix falls outside the condition domain are solved but not judged");
     as.push("Y is generated as J x + noise with |x| ~ 1, so that the normal-equation bound in terms of |x0| and |Y| is meaningful");
     as.push("for float at cond near 1e3 the rounding allowance 100*eps*cond^2 exceeds 1 and the numeric clauses are vacuous there; structural checks remain");
     as.push("the configured preconditioner is part of the current problem (it legitimately persists between problems)");
